@@ -1,6 +1,7 @@
 package scen
 
 import (
+	"errors"
 	"fmt"
 	"time"
 
@@ -16,8 +17,14 @@ type Client struct {
 	Proc int
 }
 
-func (c *Client) GetWaiter(_ kube.WaitStrategy) (kube.Waiter, error) {
-	return &waiter{c: c}, nil
+func (c *Client) GetWaiter(ws kube.WaitStrategy) (kube.Waiter, error) {
+	// same strategy validation as kube.Client.GetWaiter: an unset strategy is an error there too
+	switch ws {
+	case kube.LegacyStrategy, kube.StatusWatcherStrategy, kube.HookOnlyStrategy:
+		return &waiter{c: c}, nil
+	default:
+		return nil, errors.New("unknown wait strategy")
+	}
 }
 
 type waiter struct{ c *Client }
